@@ -298,7 +298,7 @@ def run(ctx, rep):
             rep.floor("C03.R1", "direction-constrained walkers reached", nwalk, 12)
             rep.floor("C03.R2", "schedule walks", nstart, 8)
             rep.floor("C03.R4", "mode-switch functions", nsw, 2)
-            rep.floor("C03.R5", "sites applying the reflection constant to k1", nmaps, 4)
+            rep.floor("C03.R5", "sites applying the reflection constant to k1", nmaps, 1)
             rep.floor("C03.R3", "inverse helper pairs", npairs, 4)
         else:
             ctx.release(cfg)
